@@ -26,6 +26,7 @@ import (
 	"reflect"
 	"strings"
 	"sync"
+	"sync/atomic"
 	"syscall"
 	"testing"
 	"time"
@@ -271,6 +272,21 @@ func (mo *vf19Mon) settle(k int) bool {
 	return mo.waitRet[k]
 }
 
+// vf19HangsConfirmed counts "does not return" verdicts of this process.  The
+// first one - the one that makes a test fail - waits the full 2 s of the
+// three-part rule.  Later ones can only occur while rapid shrinks that failure
+// (plain tests stop at the first); they wait 250 ms, which bounds the cost of
+// shrinking (one 40-token history needed 180 s of 2 s observations) and can at
+// worst make the reported history less minimal, never create a verdict.
+var vf19HangsConfirmed int32
+
+func vf19HangWait() time.Duration {
+	if atomic.LoadInt32(&vf19HangsConfirmed) == 0 {
+		return 2 * time.Second
+	}
+	return 250 * time.Millisecond
+}
+
 // awaitReturn is called when wait #k must return now.  It reports false when it
 // does not, decided by the three-part rule: the senders have completed
 // (k == 0: the signal's sender; k == 1: all of them) AND the goroutine dump
@@ -285,7 +301,7 @@ func (mo *vf19Mon) awaitReturn(k int) bool {
 	t0 := time.Now()
 	for !mo.waitRet[k] {
 		el := time.Since(t0)
-		if el >= 2*time.Second {
+		if el >= vf19HangWait() {
 			sendersDone := mo.completed == mo.issued
 			if k == 0 {
 				sendersDone = mo.sigDone[0]
@@ -303,6 +319,7 @@ func (mo *vf19Mon) awaitReturn(k int) bool {
 				return true
 			}
 			if sendersDone && inSelect {
+				atomic.AddInt32(&vf19HangsConfirmed, 1)
 				return false
 			}
 			if el > vf19Watchdog {
